@@ -30,6 +30,8 @@
 #include <unistd.h>
 #include <errno.h>
 #include <stdarg.h>
+#include <execinfo.h>
+#include <sanitizer/common_interface_defs.h>
 #include <sys/syscall.h>
 #include <memory>
 #include <set>
@@ -56,9 +58,24 @@ static std::unordered_set<int>* g_live_fd;
 
 static uint64_t rng_next() { g_rng ^= g_rng << 13; g_rng ^= g_rng >> 7; g_rng ^= g_rng << 17; return g_rng; }
 
+// `where <w> <needle>`: the ordinals of the arena requests whose call stack contains a function whose name contains <needle>
+static const char* g_needle = nullptr;
+static std::vector<uint64_t>* g_hits;
+static void note_stack(uint64_t idx) {
+  void* pcs[40];
+  int n = backtrace(pcs, 40);
+  char buf[512];
+  for (int i = 2; i < n; i++) {
+    buf[0] = 0;
+    __sanitizer_symbolize_pc(pcs[i], "%f", buf, sizeof(buf));
+    if (strstr(buf, g_needle)) { g_hits->push_back(idx); return; }
+  }
+}
+
 static bool must_fail(int cls) {
   if (!g_armed) return false;
   uint64_t idx = g_cnt[cls]++;
+  if (g_needle && cls == kArena) note_stack(idx);
   bool f = g_random ? (rng_next() % 1000u) < g_permille : g_fail[cls].count(idx) != 0;
   if (f) g_fired[cls]++;
   return f;
@@ -408,6 +425,90 @@ static Error prog_compiler(x86::Compiler& cc, CodeHolder& code, EH& eh, int vari
   return Error::kOk;
 }
 
+// (b) control flow: diamonds, a nested loop, an early return and a second function called through its label - many basic
+// blocks, so that RALocalAllocator::init / block assignments / liveness run over a real CFG
+static Error prog_compiler_cf(x86::Compiler& cc, CodeHolder& code, EH& eh) {
+  (void)code;
+  FuncNode* f = cc.add_func(FuncSignature::build<int, int, int>()); CKH();
+  if (!f) return Error::kOutOfMemory;
+  FuncNode* g = nullptr;
+  CK(cc.new_func_node(Out(g), FuncSignature::build<int, int>()));
+  if (!g) return Error::kOutOfMemory;
+  x86::Gp a = cc.new_gp32("a"); CKH();
+  x86::Gp b = cc.new_gp32("b"); CKH();
+  f->set_arg(0, a);
+  f->set_arg(1, b);
+  x86::Gp acc = cc.new_gp32("acc"); CKH();
+  x86::Gp i = cc.new_gp32("i"); CKH();
+  x86::Gp j = cc.new_gp32("j"); CKH();
+  x86::Gp t = cc.new_gp32("t"); CKH();
+  std::vector<x86::Gp> keep;
+  for (int k = 0; k < 14; k++) { keep.push_back(cc.new_gp32("k%d", k)); CKH(); CK(cc.lea(keep[k], x86::ptr(a, b, 0, k + 1))); }
+  Label Lelse = cc.new_label(); CKH();
+  Label Ljoin = cc.new_label(); CKH();
+  Label Louter = cc.new_label(); CKH();
+  Label Linner = cc.new_label(); CKH();
+  Label Lskip = cc.new_label(); CKH();
+  Label Lret0 = cc.new_label(); CKH();
+  Label Lend = cc.new_label(); CKH();
+  CK(cc.xor_(acc, acc));
+  CK(cc.cmp(a, 1000));
+  CK(cc.jge(Lret0));                         // early return
+  CK(cc.test(a, 1));
+  CK(cc.jz(Lelse));
+  CK(cc.lea(acc, x86::ptr(a, b, 1)));        // then
+  CK(cc.jmp(Ljoin));
+  CK(cc.bind(Lelse));
+  CK(cc.mov(acc, b));                        // else
+  CK(cc.sub(acc, a));
+  CK(cc.bind(Ljoin));
+  CK(cc.mov(i, 3));
+  CK(cc.bind(Louter));
+  CK(cc.mov(j, 2));
+  CK(cc.bind(Linner));
+  CK(cc.mov(t, i));
+  CK(cc.imul(t, j));
+  CK(cc.test(t, 2));
+  CK(cc.jnz(Lskip));
+  CK(cc.add(acc, t));
+  CK(cc.bind(Lskip));
+  CK(cc.add(acc, keep[3]));
+  CK(cc.dec(j));
+  CK(cc.jnz(Linner));
+  {
+    InvokeNode* inv = nullptr;
+    CK(cc.invoke(Out(inv), g->label(), FuncSignature::build<int, int>()));
+    if (!inv) return Error::kOutOfMemory;
+    inv->set_arg(0, acc);
+    inv->set_ret(0, acc);
+  }
+  CK(cc.dec(i));
+  CK(cc.jnz(Louter));
+  for (size_t k = 0; k < keep.size(); k++) CK(cc.add(acc, keep[k]));
+  CK(cc.jmp(Lend));
+  CK(cc.bind(Lret0));
+  CK(cc.mov(acc, -1));
+  CK(cc.bind(Lend));
+  CK(cc.ret(acc));
+  CK(cc.end_func());
+  // second function: int g(int x) { return x < 0 ? -x : x + 1; }
+  CK(cc.add_func(g) ? Error::kOk : Error::kOutOfMemory); CKH();
+  x86::Gp x = cc.new_gp32("x"); CKH();
+  g->set_arg(0, x);
+  Label Lneg = cc.new_label(); CKH();
+  Label Lg = cc.new_label(); CKH();
+  CK(cc.test(x, x));
+  CK(cc.js(Lneg));
+  CK(cc.inc(x));
+  CK(cc.jmp(Lg));
+  CK(cc.bind(Lneg));
+  CK(cc.neg(x));
+  CK(cc.bind(Lg));
+  CK(cc.ret(x));
+  CK(cc.end_func());
+  return Error::kOk;
+}
+
 static std::string exec_fn(void* p) {
   typedef int (*Fn)(int, int);
   Fn fn = (Fn)p;
@@ -504,7 +605,7 @@ struct CompX86 : HolderWL {
   explicit CompX86(int variant) : variant(variant) { env.init(Arch::kX64); }
   Error prepare(int attempt) override { return prepare_code(&cc, attempt); }
   Error body(Out2& o) override {
-    CK(prog_compiler(cc, code, eh, variant));
+    if (variant == 2) CK(prog_compiler_cf(cc, code, eh)); else CK(prog_compiler(cc, code, eh, variant));
     CK1(cc.finalize());
     CK(code.flatten());
     CK(code.resolve_cross_section_fixups());
@@ -539,6 +640,7 @@ struct JitWL : Workload {
       fns.clear();
       JitAllocator::CreateParams params{};
       params.options = JitAllocatorOptions(options);
+      params.block_size = 65536;   // first block = 2 x block_size
       rt.reset();
       rt.reset(new JitRuntime(&params));
     }
@@ -559,7 +661,7 @@ struct JitWL : Workload {
       CK(a.imul(x86::eax, x86::eax, i + 2));
       CK(a.add(x86::eax, x86::esi));
       CK(a.jmp(L));
-      std::vector<uint8_t> pad(size_t(i) * 9000 + 10, 0xCC);
+      std::vector<uint8_t> pad(size_t(i) * 30000 + 10, 0xCC);   // 300 KiB in total: a second block is needed
       CK(a.embed(pad.data(), pad.size()));
       CK(a.bind(L));
       CK(a.call(imm((void*)c15_helper)));   // relocation through rel32 or the address table
@@ -664,7 +766,48 @@ struct ContWL : Workload {
   }
 };
 
+// (a) history-dependent arena failure: the arena has grown to several blocks, is soft-reset (blocks retained), and a request
+// larger than the retained spare blocks makes `_alloc_oneshot` free them and malloc a replacement - which may fail.  The
+// workload goes on after a failed request (statistics, small requests, another soft reset, refill) so that a dangling block
+// link would be walked; it reports kOutOfMemory at the end when any request failed.
+struct ArenaHistWL : Workload {
+  std::unique_ptr<Arena> arena;
+  Error prepare(int attempt) override {
+    eh.clear();
+    if (attempt == 0 || !arena) { arena.reset(); arena.reset(new Arena(8192)); }
+    else arena->reset(attempt % 2 ? ResetPolicy::kSoft : ResetPolicy::kHard);
+    return Error::kOk;
+  }
+  Error body(Out2& o) override {
+    Arena& ar = *arena;
+    unsigned failed = 0;
+    auto take = [&](size_t n) { void* p = ar.alloc_oneshot(n); if (!p) failed++; else memset(p, 0xA5, n); return p; };
+    for (int i = 0; i < 60; i++) take(1024);                       // blocks of 16K, 32K, 64K (minus overhead)
+    ar.reset(ResetPolicy::kSoft);
+    take(7000);                                                     // fits the first block
+    take(40000);                                                    // larger than the 32K spare: it is freed, the 64K one fits
+    ar.reset(ResetPolicy::kSoft);
+    take(100000);                                                   // larger than every retained block: all freed + malloc
+    ArenaStatistics st = ar.statistics();
+    o.bytes.push_back(uint8_t(st.block_count() > 0));
+    for (int i = 0; i < 40; i++) take(512);
+    ar.reset(ResetPolicy::kSoft);
+    for (int i = 0; i < 30; i++) take(4096);
+    {
+      size_t got = 0;
+      void* p = ar.alloc_reusable(3000, Out(got));                 // dynamic block
+      if (!p) failed++; else { memset(p, 1, 3000); ar.free_reusable(p, got); }
+    }
+    st = ar.statistics();
+    o.bytes.push_back(uint8_t(st.used_size() <= st.reserved_size()));
+    o.bytes.push_back(uint8_t(failed == 0));
+    return failed ? Error::kOutOfMemory : Error::kOk;
+  }
+};
+
 static Workload* make_workload(const std::string& w) {
+  if (w == "arenahist") return new ArenaHistWL();
+  if (w == "compcf") return new CompX86(2);
   if (w == "asm") return new AsmX86(false);
   if (w == "asmbig") return new AsmX86(true);
   if (w == "a64") return new AsmA64();
@@ -803,6 +946,8 @@ struct OpsCtx {
   ArenaVector<uint32_t> vec;
   String str;
   Label l0, l1;
+  Arena parena{4096};
+  ConstPool pool{parena};
 };
 static std::unique_ptr<OpsCtx> g_ops;
 static uint64_t g_op_mask = 0;
@@ -972,6 +1117,24 @@ static std::string ops_step(const std::vector<std::string>& w) {
       g_op_armed = false;
     }
   }
+  else if (op == "padd") {
+    // ConstPool::add on its own arena: `<Error|ok> n=<requests> off=<offset|-> | P=<size>:<alignment>:<gap pool>:<image> G=<index:offset:size,...>`
+    if (w.size() != 4 || !vh::hex_to_bytes(w[3], name)) return "bad-op";
+    size_t off = 0;
+    g_op_armed = true;
+    e = c.pool.add(name.data(), name.size(), Out(off));
+    g_op_armed = false;
+    std::string r = ename(e) + " n=" + std::to_string(g_op_cnt) + " off=" + (e == Error::kOk ? std::to_string(off) : std::string("-")) + " | P=" +
+                    std::to_string(c.pool.size()) + ":" + std::to_string(c.pool.alignment()) + ":";
+    size_t gp = 0;
+    for (ConstPool::Gap* g = c.pool._gap_pool; g; g = g->_next) gp++;
+    std::vector<uint8_t> img(c.pool.size());
+    c.pool.fill(img.data());
+    r += std::to_string(gp) + ":" + (img.empty() ? std::string("-") : vh::bytes_to_hex(img.data(), img.size())) + " G=";
+    for (size_t i = 0; i < ConstPool::kIndexCount; i++)
+      for (ConstPool::Gap* g = c.pool._gaps[i]; g; g = g->_next) r += std::to_string(i) + ":" + std::to_string(g->_offset) + ":" + std::to_string(g->_size) + ",";
+    return r;
+  }
   else if (op == "vapp") {
     if (!U(3, u0)) return "bad-op";
     g_op_armed = true;
@@ -1007,6 +1170,15 @@ int main() {
     std::vector<std::string> w = vh::words(line);
     if (w.empty()) return "";
     if (w[0] == "count") return run_count(w);
+    if (w[0] == "where" && w.size() == 3) {
+      static std::string needle; needle = w[2];
+      std::vector<uint64_t> hits; g_hits = &hits; g_needle = needle.c_str();
+      std::string r = run_count({"count", w[1]});
+      g_needle = nullptr;
+      std::string s = "where " + w[1] + " " + w[2] + " n=" + std::to_string(hits.size()) + " k=";
+      for (uint64_t k : hits) s += std::to_string(k) + ",";
+      return s;
+    }
     if (w[0] == "fault" || w[0] == "multi") return run_fault(w);
     return ops_step(w);
   });
